@@ -549,7 +549,8 @@ class Project(MessageHandler):
 
         Also compute start/end dates for container tasks based on children.
         """
-        for task in self.tasks:
+        # Innermost containers first: marking a nested container may complete its parent
+        for task in sorted(self.tasks, key=lambda t: -len(t.fullId.split("."))):
             if task.leaf():
                 continue  # Skip leaf tasks
 
